@@ -352,7 +352,7 @@ class GraphBasedModelConstructor:
     def detect_similar_isoforms(self, model_storage):
         to_substitute = {}
         for model in model_storage:
-            if len(model.exon_blocks) <= 2 or model.transcript_id in to_substitute:
+            if len(model.exon_blocks) < 2 or model.transcript_id in to_substitute:
                 continue
             transcript_model_gene_info = GeneInfo.from_models([model], self.params.delta)
             assigner = LongReadAssigner(transcript_model_gene_info, self.params)
